@@ -277,14 +277,17 @@ pub struct SortCase {
 }
 
 pub fn gen_sort_case(rng: &mut Rng, integer_key: bool) -> SortCase {
-    let n = 1 + rng.usize_below(12);
+    // long tables with few distinct keys now and then: sorting routines switch algorithms with the length, and the
+    // order of equal keys is only visible with a payload column
+    let long = rng.chance(1, 8);
+    let n = if long { 25 + rng.usize_below(100) } else { 1 + rng.usize_below(12) };
     let mut cols = vec![];
     let mut data = vec![];
     let (key_bits, key_st) = if integer_key {
-        let ints: Vec<ScalarType> = ALL_ST.iter().cloned().filter(|s| *s != BIT).collect();
+        let ints: Vec<ScalarType> = ALL_ST.iter().cloned().filter(|s| *s != BIT && (!long || crate::vals::st_bits(*s) <= 16)).collect();
         (None, *rng.pick(&ints))
     } else {
-        (Some(1 + rng.usize_below(10)), BIT)
+        (Some(1 + rng.usize_below(if long { 3 } else { 10 })), BIT)
     };
     let key_name = "key".to_string();
     let kc = ColSpec { name: key_name.clone(), st: key_st, row_shape: key_bits.map(|b| vec![b as u64]).unwrap_or_default() };
@@ -309,7 +312,7 @@ pub fn gen_sort_case(rng: &mut Rng, integer_key: bool) -> SortCase {
             kd.push(x & m);
         }
     }
-    let extra = rng.usize_below(3);
+    let extra = if long { 1 + rng.usize_below(2) } else { rng.usize_below(3) };
     let key_pos = rng.usize_below(extra + 1);
     for i in 0..=extra {
         if i == key_pos {
